@@ -218,6 +218,32 @@ def run(prop, tier, seed):
             worst[t["op"]] = max(worst.get(t["op"], 0), dv)
     # laws
     from src import quadrature as q
+    # a mirror really is the reflection of its argument in the named coordinate (and only in that one)
+    for t in T:
+        if not t["op"].startswith("mirror"):
+            continue
+        try:
+            sm, sa = build(t), build(t["arg"])
+        except Exception:
+            continue
+        P, A = np.atleast_2d(sm.points), np.atleast_2d(sa.points)
+        ax = {"mirror": 0, "mirror_x": 0, "mirror_y": 1, "mirror_z": 2}[t["op"]]
+        exp = A.copy()
+        exp[ax] = 1 - A[ax]
+        d = float(np.max(np.abs(P - exp))) if P.shape == exp.shape else 1.0
+        wdiff = float(np.max(np.abs(np.asarray(sm.weights) - np.asarray(sa.weights)))) if np.shape(sm.weights) == np.shape(sa.weights) else 1.0
+        recs.append({"k": "law", "law": "mirror-is-not-the-reflection", "dev": dev(max(d, wdiff), 0.0, 1e-15), "term": t})
+    # mapped 1-D rules on short intervals far from the origin (measure and first moments)
+    for b in bases:
+        for tterm in (dict(op="base", fam=b["fam"], key=list(b["key"]), deg=b["deg"]),):
+            s1 = build(tterm)
+            for a0, side in ((50.0, 1e-4), (1000.0, 1e-2), (-300.0, 2e-3), (1e3, 1e3)):
+                side = (a0 + side) - a0        # the interval length as the floats give it
+                v0 = s1.integrate(lambda x: 1.0 + 0 * x, a0, a0 + side)
+                recs.append({"k": "law", "law": "far-interval-measure", "dev": dev(v0, side, 1e-12 * side), "term": tterm, "interval": [a0, a0 + side]})
+                if b["deg"] >= 1:
+                    v1 = s1.integrate(lambda x: x - a0, a0, a0 + side)
+                    recs.append({"k": "law", "law": "far-interval-moment", "dev": dev(v1, side * side / 2, 1e-10 * side * side), "term": tterm, "interval": [a0, a0 + side]})
     for b in bases:
         s = make_base(b)
         mm = s.mirror().mirror()
